@@ -229,13 +229,16 @@ def snapshot_driver():
     import tempfile
     if _DRIVER_SNAPSHOT is None:
         d = tempfile.mkdtemp(prefix="htdriver-", dir=os.path.join(LEAN, ".lake"))
-        atexit.register(shutil.rmtree, d, True)
+        owner = os.getpid()
+        atexit.register(lambda: os.getpid() == owner and shutil.rmtree(d, True))
         _DRIVER_SNAPSHOT = os.path.join(d, "htdriver")
+        os.environ["VERIF_DRIVER_SNAPSHOT"] = _DRIVER_SNAPSHOT
     shutil.copy2(DRIVER, _DRIVER_SNAPSHOT)
 
 
 def driver_path() -> str:
-    return _DRIVER_SNAPSHOT if _DRIVER_SNAPSHOT and os.path.exists(_DRIVER_SNAPSHOT) else DRIVER
+    snap = _DRIVER_SNAPSHOT or os.environ.get("VERIF_DRIVER_SNAPSHOT")
+    return snap if snap and os.path.exists(snap) else DRIVER
 
 
 class Driver:
@@ -270,6 +273,13 @@ class Driver:
             if i >= len(outs) or not outs[i].startswith(pre):
                 raise Infra(f"driver output desynchronised at case {i}: {outs[i] if i < len(outs) else None!r}")
             res.append(outs[i][len(pre):])
+        d = os.environ.get("VERIF_INTERP_DIR")
+        if d and os.path.isdir(d):
+            import random
+            import uuid
+            pick = random.sample(range(len(lines)), min(40, len(lines)))
+            with open(os.path.join(d, uuid.uuid4().hex), "w", encoding="utf-8") as f:
+                f.write("\n".join(f"{lines[i]}\t{res[i]}" for i in pick if "\t" not in lines[i] and len(lines[i]) < 20000))
         return res
 
 
@@ -361,6 +371,9 @@ class Check:
         self.proof = build_and_audit(self.prop_files, leanchecker=(self.tier == "thorough" and os.environ.get("VERIF_LEANCHECKER", "1") == "1"))
         if self.proof.driver_ok:
             self.driver = Driver()
+            if self.tier == "thorough" and os.environ.get("VERIF_INTERP", "1") == "1":
+                import tempfile
+                os.environ["VERIF_INTERP_DIR"] = tempfile.mkdtemp(prefix="interp-", dir=os.path.join(LEAN, ".lake"))
 
     def correspond(self, holds: bool = True, batch: int = 200000):
         """run the model on every collected line; compare with the implementation;
@@ -395,9 +408,40 @@ class Check:
             for idx in self.rng.sample(range(n), min(5, n)):
                 self.samples.append({"line": self.lines[idx][:600], "impl": self.impl[idx][:300]})
 
+    def interpreter_crosscheck(self, k: int = 600):
+        """trusted base, item 3: the correspondence runs *compiled* model definitions.  Every driver call of this run
+        (in this process or a worker) left a random sample of its lines and answers in VERIF_INTERP_DIR; a sample of
+        those is re-evaluated by Lean's interpreter and must give the same answers."""
+        d = os.environ.get("VERIF_INTERP_DIR")
+        if not d or not os.path.isdir(d):
+            return
+        pairs = []
+        for fn in sorted(os.listdir(d)):
+            with open(os.path.join(d, fn), encoding="utf-8") as f:
+                rows = f.read().split("\n")
+            pairs += [tuple(r.split("\t", 1)) for r in rows if "\t" in r]
+        import shutil
+        shutil.rmtree(d, True)
+        os.environ.pop("VERIF_INTERP_DIR", None)
+        if not pairs:
+            return
+        pairs = self.rng.sample(pairs, min(k, len(pairs)))
+        inp = "".join(f"c{i} {l}\n" for i, (l, _) in enumerate(pairs))
+        p = subprocess.run(["lake", "env", "lean", "--run", "Driver.lean"], cwd=LEAN, input=inp, capture_output=True,
+                           text=True, timeout=3600)
+        if p.returncode != 0:
+            raise Infra(f"interpreter run of the driver failed rc={p.returncode}: {p.stderr[-1500:]}")
+        interp = [o.split(" ", 1)[1] if " " in o else "" for o in p.stdout.split("\n")[:len(pairs)]]
+        diff = [(l, c, i) for (l, c), i in zip(pairs, interp) if c != i]
+        self.interp_checked = len(pairs)
+        if diff or len(interp) != len(pairs):
+            l, c, i = diff[0] if diff else ("", "", "")
+            raise Infra(f"compiled driver and interpreter disagree on {len(diff)} of {len(pairs)} lines, e.g. {l[:300]} -> compiled {c[:200]} / interpreted {i[:200]}")
+
     # -- verdict
     def finish(self, level: str = "proof", matchers=None, shrink=None) -> int:
         assert self.proof is not None
+        self.interpreter_crosscheck()
         matchers = matchers or {}
         known = load_known()
         prop_fail = [f for f in self.failures if f.kind == "property"] + self.py_fail
@@ -506,6 +550,7 @@ class Check:
             "traces_validated_against_impl": len(self.lines),
             "holds_evaluated_on_impl": self.holds_checked,
             "correspondence_differences": len([f for f in self.failures if f.kind == "correspondence"]),
+            "lines_reevaluated_by_interpreter": getattr(self, "interp_checked", 0),
             "distribution": self.tags,
             "exhaustive_scopes": self.exhaustive_scopes,
             "changed_functions": self.changed_functions(),
